@@ -199,20 +199,48 @@ func ruleNameList(c *Ctx) []*Obligation {
 		// FindByName
 		fb := c.MustFunc(spec.pkg, spec.typ, "FindByName")
 		key := c.FuncKey(fb) + "#index-guard"
-		good := false
-		for _, b := range fb.Blocks {
-			if ifi, ok := b.Instrs[len(b.Instrs)-1].(*ssa.If); ok {
-				if bo, ok := ifi.Cond.(*ssa.BinOp); ok {
-					if call, ok := bo.X.(*ssa.Call); ok && call.Call.StaticCallee() == find {
-						k, isK := constInt(bo.Y)
-						if isK && ((bo.Op == token.GEQ && k == 0) || (bo.Op == token.GTR && k == -1) || (bo.Op == token.NEQ && k == -1)) {
-							good = true
-						}
+		// evaluated abstractly for a search index of -1, 0 and 3: nil for -1, otherwise the entry at that index
+		good, undec := true, ""
+		for _, idx := range []int64{-1, 0, 3} {
+			ai := &absInterp{c: c, fn: fb, env: map[ssa.Value]aiVal{}}
+			ai.call = func(ai *absInterp, call *ssa.Call) (aiVal, bool) {
+				if call.Call.StaticCallee() == find {
+					return aiInt(idx), true
+				}
+				if bi, ok := call.Call.Value.(*ssa.Builtin); ok && bi.Name() == "len" {
+					return aiInt(10), true
+				}
+				return aiVal{}, false
+			}
+			ai.load = func(ai *absInterp, addr ssa.Value) (aiVal, bool) {
+				switch a := addr.(type) {
+				case *ssa.FieldAddr:
+					if fieldName(a.X.Type(), a.Field) == spec.field {
+						return aiSym("list"), true
+					}
+				case *ssa.IndexAddr:
+					if v, i := ai.get(a.X), ai.get(a.Index); v.kind == "sym" && v.s == "list" && i.kind == "int" {
+						return aiSym(fmt.Sprintf("entry@%d", i.n)), true
 					}
 				}
+				return aiVal{}, false
+			}
+			ai.inline = func(g *ssa.Function) bool { return g != find }
+			out := ai.run(fb.Blocks[0], nil, 0)
+			switch {
+			case out.kind != "return" || len(out.ret) != 1:
+				undec = "FindByName: " + out.why
+			case idx < 0 && out.ret[0].kind != "nil":
+				good = false
+			case idx >= 0 && !(out.ret[0].kind == "sym" && out.ret[0].s == fmt.Sprintf("entry@%d", idx)):
+				good = false
 			}
 		}
-		o.check(good, key, c.Pos(fb.Pos()), "returns the entry exactly when the search index is >= 0", "FindByName does not return the entry exactly when the search index is >= 0")
+		if undec != "" {
+			o.undecided(key, c.Pos(fb.Pos()), undec)
+		} else {
+			o.check(good, key, c.Pos(fb.Pos()), "returns the entry exactly when the search index is >= 0", "FindByName does not return the entry exactly when the search index is >= 0")
+		}
 		// Add appends
 		add := c.MustFunc(spec.pkg, spec.typ, "Add")
 		ex := c.newExpr(add)
@@ -242,57 +270,78 @@ func ruleNameDiscover(c *Ctx) []*Obligation {
 	if len(pm.levels) == 7 {
 		fn := pm.levels[6]
 		key := c.FuncKey(fn) + "#records-variable-names"
-		n, bad := 0, ""
-		for _, b := range fn.Blocks {
+		touches := func(f *ssa.Function) bool {
+			for _, b := range f.Blocks {
+				for _, in := range b.Instrs {
+					if fa, ok := in.(*ssa.FieldAddr); ok && fieldName(fa.X.Type(), fa.Field) == "variableNames" {
+						return true
+					}
+				}
+			}
+			return false
+		}
+		blockTouches := func(b *ssa.BasicBlock) bool {
 			for _, in := range b.Instrs {
-				st, ok := in.(*ssa.Store)
-				if !ok {
-					continue
+				if fa, ok := in.(*ssa.FieldAddr); ok && fieldName(fa.X.Type(), fa.Field) == "variableNames" {
+					return true
 				}
-				fa, ok := st.Addr.(*ssa.FieldAddr)
-				if !ok || fieldName(fa.X.Type(), fa.Field) != "variableNames" {
-					continue
+				if call, ok := in.(*ssa.Call); ok {
+					if g := call.Call.StaticCallee(); g != nil && c.InModule(g) && g.Blocks != nil && g != fn && touches(g) {
+						return true
+					}
 				}
-				n++
-				// guard: <reclassified token>.Type() == Variable
-				varGuard, notFound := false, false
-				var tok ssa.Value
-				for _, g := range guardsAt(b) {
-					cond, truth := g.atom()
-					if recv, k, op, ok := c.typeTestConst(cond, pkgParsers, "ExpressionToken"); ok && k == vk && (op == token.EQL) == truth {
-						// the tested token must be the value after reclassification: a phi that merges the Function re-typing
-						if phi, isPhi := recv.(*ssa.Phi); isPhi {
-							for _, e := range phi.Edges {
-								if call, ok := e.(*ssa.Call); ok {
-									if _, isN := c.callTo(call, pkgParsers, "", "NewExpressionToken"); isN {
-										varGuard = true
-										tok = recv
-									}
-								}
-							}
+			}
+			return false
+		}
+		// the places where a token that is still a Variable after the function detection is handled
+		var starts []*ssa.BasicBlock
+		for _, b := range fn.Blocks {
+			ifi, ok := b.Instrs[len(b.Instrs)-1].(*ssa.If)
+			if !ok {
+				continue
+			}
+			recv, k, op, ok := c.typeTestConst(ifi.Cond, pkgParsers, "ExpressionToken")
+			if !ok || k != vk || op != token.EQL {
+				continue
+			}
+			retyped := false
+			for _, l := range phiLeaves(recv) {
+				if call, ok := l.(*ssa.Call); ok {
+					if _, isN := c.callTo(call, pkgParsers, "", "NewExpressionToken"); isN {
+						retyped = true
+					}
+				}
+			}
+			if retyped {
+				starts = append(starts, b)
+			}
+		}
+		// is a name recorded anywhere else (without that guard)?
+		unguarded := ""
+		for _, b := range fn.Blocks {
+			if !blockTouches(b) {
+				continue
+			}
+			okDom := false
+			for _, sb := range starts {
+				if sb.Succs[0].Dominates(b) {
+					okDom = true
+				}
+			}
+			if !okDom {
+				for _, in := range b.Instrs {
+					if st, ok := in.(*ssa.Store); ok {
+						if fa, ok := st.Addr.(*ssa.FieldAddr); ok && fieldName(fa.X.Type(), fa.Field) == "variableNames" {
+							unguarded = "a name is recorded without the test Type()==Variable on the token as re-typed by the function detection: function names (or other tokens) are reported as variables"
 						}
 					}
-					// !found
-					if phi, isPhi := cond.(*ssa.Phi); isPhi && !truth && isBoolType(phi.Type()) {
-						notFound = true
-					}
-				}
-				if !varGuard {
-					bad = "a name is recorded without the test Type()==Variable on the token as re-typed by the function detection: function names (or other tokens) are reported as variables"
-				}
-				if !notFound {
-					bad = "a name is recorded without the 'not recorded yet' test: names are reported more than once"
-				}
-				// recorded text is the token's own text
-				recorded := st.Val
-				if ap, ok := st.Val.(*ssa.Call); ok && len(ap.Call.Args) == 2 {
-					if sl, ok := ap.Call.Args[1].(*ssa.Slice); ok {
-						if al, ok := sl.X.(*ssa.Alloc); ok {
-							for _, r := range *al.Referrers() {
-								if ia, ok := r.(*ssa.IndexAddr); ok {
-									for _, r2 := range *ia.Referrers() {
-										if s2, ok := r2.(*ssa.Store); ok {
-											recorded = s2.Val
+					if call, ok := in.(*ssa.Call); ok {
+						if g := call.Call.StaticCallee(); g != nil && c.InModule(g) && g != fn && g.Blocks != nil && touches(g) {
+							for _, gb := range g.Blocks {
+								for _, gin := range gb.Instrs {
+									if st, ok := gin.(*ssa.Store); ok {
+										if fa, ok := st.Addr.(*ssa.FieldAddr); ok && fieldName(fa.X.Type(), fa.Field) == "variableNames" {
+											unguarded = "a name is recorded (through " + g.Name() + ") without the test Type()==Variable on the token as re-typed by the function detection: function names (or other tokens) are reported as variables"
 										}
 									}
 								}
@@ -300,22 +349,108 @@ func ruleNameDiscover(c *Ctx) []*Obligation {
 						}
 					}
 				}
-				if tok != nil && !backwardSliceHas(recorded, func(v ssa.Value) bool {
-					call, ok := v.(*ssa.Call)
-					if !ok {
-						return false
+			}
+		}
+		bad, undec, runs := unguarded, "", 0
+		if len(starts) == 0 && bad == "" {
+			bad = "variable names are never recorded"
+		}
+		for _, sb := range starts {
+			entry := sb.Succs[0]
+			// blocks of the guarded region from which the name list is still touched
+			relevant := map[*ssa.BasicBlock]bool{}
+			for _, b := range fn.Blocks {
+				if entry.Dominates(b) && blockTouches(b) {
+					relevant[b] = true
+				}
+			}
+			for changed := true; changed; {
+				changed = false
+				for _, b := range fn.Blocks {
+					if relevant[b] || !entry.Dominates(b) {
+						continue
 					}
+					for _, sc := range b.Succs {
+						if relevant[sc] {
+							relevant[b] = true
+							changed = true
+						}
+					}
+				}
+			}
+			if len(relevant) == 0 {
+				bad = "variable names are never recorded"
+				continue
+			}
+			for _, sc := range []struct {
+				have []string
+				want string
+			}{{nil, "name"}, {[]string{"name"}, "name"}, {[]string{"other"}, "other,name"}} {
+				runs++
+				ai := &absInterp{c: c, fn: fn, env: map[ssa.Value]aiVal{}, fields: map[string]aiVal{}}
+				lst := aiVal{kind: "list"}
+				for _, h := range sc.have {
+					lst.tup = append(lst.tup, aiSym(h))
+				}
+				ai.fields["variableNames"] = lst
+				ai.cmp = func(a, b aiVal) (bool, bool) {
+					if a.kind == "sym" && b.kind == "sym" {
+						return a.s == b.s, true
+					}
+					return false, false
+				}
+				ai.inline = func(g *ssa.Function) bool { return touches(g) }
+				ai.call = func(ai *absInterp, call *ssa.Call) (aiVal, bool) {
 					f := calleeObj(call.Common())
-					return f != nil && f.Name() == "Value" && callRecv(call.Common()) == tok
-				}) {
-					bad = "the recorded name is not the variable token's own text"
+					if f == nil {
+						return aiVal{}, false
+					}
+					switch {
+					case recvNamed(f) == "ExpressionToken" && f.Name() == "Value":
+						return aiSym("token-value"), true
+					case recvNamed(f) == "Variant" && (f.Name() == "AsString" || f.Name() == "String"):
+						if v := ai.get(call.Common().Args[0]); v.kind == "sym" && v.s == "token-value" {
+							return aiSym("name"), true
+						}
+					}
+					return aiVal{}, false
+				}
+				ai.stop = func(from, to *ssa.BasicBlock) bool { return !relevant[to] }
+				out := ai.run(entry, sb, 0)
+				got := []string{}
+				if l := ai.fields["variableNames"]; l.kind == "list" {
+					for _, v := range l.tup {
+						got = append(got, v.s)
+					}
+				} else {
+					undec = "the recorded names are not kept as a list the model can follow"
+					continue
+				}
+				if out.kind == "opaque" {
+					undec = out.why
+					continue
+				}
+				if strings.Join(got, ",") != sc.want && bad == "" {
+					switch {
+					case len(got) > len(strings.Split(sc.want, ",")):
+						bad = "a name is recorded without the 'not recorded yet' test: names are reported more than once"
+					case len(got) < len(strings.Split(sc.want, ",")):
+						bad = "a variable's name is not recorded"
+					default:
+						bad = "the recorded name is not the variable token's own text"
+					}
+					bad += fmt.Sprintf(" (names before [%s], after [%s], expected [%s])", strings.Join(sc.have, ","), strings.Join(got, ","), sc.want)
 				}
 			}
 		}
-		if n == 0 {
-			bad = "variable names are never recorded"
+		switch {
+		case bad != "":
+			o.bad(key, c.Pos(fn.Pos()), bad)
+		case undec != "":
+			o.undecided(key, c.Pos(fn.Pos()), undec)
+		default:
+			o.ok(key, c.Pos(fn.Pos()), fmt.Sprintf("%d abstract run(s): recorded only for Variable tokens (after function detection), once, with the token's text", runs))
 		}
-		o.check(bad == "", key, c.Pos(fn.Pos()), "recorded only for Variable tokens (after function detection), once, with the token's text", bad)
 	}
 	// (2) automatic creation
 	{
@@ -396,41 +531,118 @@ func ruleNameDiscover(c *Ctx) []*Obligation {
 	{
 		fn := c.MustFunc("mustache/parsers", "MustacheParser", "lookupVariables")
 		key := c.FuncKey(fn) + "#skips-text-and-comments"
-		tv, _ := c.constByName("mustache/parsers", "TokenValue")
-		tc, _ := c.constByName("mustache/parsers", "TokenComment")
-		var seenV, seenC, seenE bool
-		for _, b := range fn.Blocks {
-			for _, in := range b.Instrs {
-				st, ok := in.(*ssa.Store)
-				if !ok {
-					continue
-				}
-				fa, ok := st.Addr.(*ssa.FieldAddr)
-				if !ok || fieldName(fa.X.Type(), fa.Field) != "variableNames" {
-					continue
-				}
-				if _, isAppend := st.Val.(*ssa.Call); !isAppend {
-					continue
-				}
-				for _, g := range guardsAt(b) {
-					cond, truth := g.atom()
-					if _, k, op, ok := c.typeTestConst(cond, "mustache/parsers", "MustacheToken"); ok && (op == token.NEQ) == truth {
-						if k == tv {
-							seenV = true
-						}
-						if k == tc {
-							seenC = true
-						}
-					}
-					if bo, ok := cond.(*ssa.BinOp); ok {
-						if s, isS := constString(bo.Y); isS && s == "" && (bo.Op == token.NEQ) == truth {
-							seenE = true
-						}
+		kk := func(n string) int64 {
+			v, ok := c.constByName("mustache/parsers", n)
+			if !ok {
+				panic(anchorError("constant " + n + " not found"))
+			}
+			return v
+		}
+		type tokSpec struct {
+			typ  int64
+			name string // "" = empty name
+		}
+		// the discovery loop evaluated abstractly over short token lists: which names end up recorded
+		run := func(toks []tokSpec) ([]string, string) {
+			ai := &absInterp{c: c, fn: fn, env: map[ssa.Value]aiVal{}, fields: map[string]aiVal{}}
+			lst := aiVal{kind: "list"}
+			for i := range toks {
+				lst.tup = append(lst.tup, aiSym(fmt.Sprintf("token%d", i)))
+			}
+			ai.fields["initialTokens"] = lst
+			ai.fields["originalTokens"] = lst
+			ai.fields["variableNames"] = aiVal{kind: "list"}
+			spec := func(v aiVal) *tokSpec {
+				var i int
+				if v.kind == "sym" {
+					if _, err := fmt.Sscanf(v.s, "token%d", &i); err == nil && i < len(toks) {
+						return &toks[i]
 					}
 				}
+				return nil
+			}
+			ai.cmp = func(a, b aiVal) (bool, bool) {
+				if a.kind == "sym" && b.kind == "sym" {
+					return a.s == b.s, true
+				}
+				if (a.kind == "sym" && b.kind == "str") || (a.kind == "str" && b.kind == "sym") {
+					return false, true
+				}
+				return false, false
+			}
+			ai.inline = func(g *ssa.Function) bool { return recvNamedFn(g) == "MustacheParser" }
+			ai.call = func(ai *absInterp, call *ssa.Call) (aiVal, bool) {
+				cc := call.Common()
+				f := calleeObj(cc)
+				if f == nil {
+					return aiVal{}, false
+				}
+				switch {
+				case recvNamed(f) == "MustacheToken" && f.Name() == "Type":
+					if ts := spec(ai.get(cc.Args[0])); ts != nil {
+						return aiInt(ts.typ), true
+					}
+				case recvNamed(f) == "MustacheToken" && f.Name() == "Value":
+					if ts := spec(ai.get(cc.Args[0])); ts != nil {
+						if ts.name == "" {
+							return aiStr(""), true
+						}
+						return aiSym(ts.name), true
+					}
+				case f.Pkg() != nil && f.Pkg().Path() == "strings" && (f.Name() == "ToLower" || f.Name() == "ToUpper"):
+					a := ai.get(cc.Args[0])
+					if a.kind == "sym" {
+						return aiSym("fold(" + strings.TrimSuffix(strings.TrimPrefix(a.s, "fold("), ")") + ")"), true
+					}
+					return a, true
+				}
+				return aiVal{}, false
+			}
+			out := ai.run(fn.Blocks[0], nil, 0)
+			if out.kind != "return" {
+				return nil, out.why
+			}
+			var names []string
+			for _, v := range ai.fields["variableNames"].tup {
+				names = append(names, v.s)
+			}
+			if ai.fields["variableNames"].kind != "list" {
+				return nil, "the recorded names are not kept as a list the model can follow"
+			}
+			return names, ""
+		}
+		tv, tc, tvar, tsec := kk("TokenValue"), kk("TokenComment"), kk("TokenVariable"), kk("TokenSection")
+		cases := []struct {
+			toks []tokSpec
+			want string
+			what string
+		}{
+			{[]tokSpec{{tv, "a"}}, "", "a text token contributes a name"},
+			{[]tokSpec{{tc, "a"}}, "", "a comment token contributes a name"},
+			{[]tokSpec{{tvar, ""}}, "", "an empty name is recorded"},
+			{[]tokSpec{{tvar, "a"}}, "a", "a variable token's own name is not recorded"},
+			{[]tokSpec{{tvar, "a"}, {tsec, "a"}}, "a", "a name occurring twice is not recorded exactly once"},
+			{[]tokSpec{{tvar, "a"}, {tvar, "b"}}, "a,b", "two different names are not both recorded in order of first occurrence"},
+		}
+		bad, undec := "", ""
+		for _, cs := range cases {
+			got, why := run(cs.toks)
+			if why != "" {
+				undec = why
+				continue
+			}
+			if strings.Join(got, ",") != cs.want && bad == "" {
+				bad = fmt.Sprintf("%s (recorded [%s], expected [%s])", cs.what, strings.Join(got, ","), cs.want)
 			}
 		}
-		o.check(seenV && seenC && seenE, key, c.Pos(fn.Pos()), "names are taken only from tokens that are neither text nor comment and have a non-empty name", "template variable discovery no longer excludes text tokens, comment tokens or empty names")
+		switch {
+		case bad != "":
+			o.bad(key, c.Pos(fn.Pos()), "template variable discovery: "+bad)
+		case undec != "":
+			o.undecided(key, c.Pos(fn.Pos()), undec)
+		default:
+			o.ok(key, c.Pos(fn.Pos()), "6 abstract runs: names are taken only from tokens that are neither text nor comment and have a non-empty name, once each, in order")
+		}
 	}
 	return o.list
 }
